@@ -220,6 +220,57 @@ Qed.
 Lemma Forall_txhash l : Forall pair32 (map (fun e => (to_hash (ob e.(ph_Hash)), to_hash (ob e.(ph_SubHash)))) l).
 Proof. induction l; cbn; constructor; [split; apply to_hash_length | assumption]. Qed.
 
+(* ---------- signatures: Sign.Bytes() / BytesToSign ---------- *)
+Lemma le_val_app_zeros l k : le_val (l ++ repeat 0%N k) = le_val l.
+Proof.
+  induction l as [|d l IH]; cbn.
+  - induction k; cbn; [reflexivity | rewrite IHk; reflexivity].
+  - rewrite IH. reflexivity.
+Qed.
+
+Lemma rev_repeat {A} (a : A) k : rev (repeat a k) = repeat a k.
+Proof.
+  induction k; cbn; [reflexivity|]. rewrite IHk. clear IHk.
+  induction k; cbn; [reflexivity | rewrite IHk; reflexivity].
+Qed.
+
+Lemma bev_pad32 b : bev (pad32 b) = bev b.
+Proof. unfold bev, pad32. rewrite rev_app_distr, rev_repeat. apply le_val_app_zeros. Qed.
+
+Lemma pad32_length n : (n < 2 ^ 256)%N -> List.length (pad32 (beb n)) = 32%nat.
+Proof.
+  intros H. pose proof (beb_length n 32 H). unfold pad32. rewrite app_length, repeat_length. lia.
+Qed.
+
+Lemma sign_bytes_length r s v : (r < 2 ^ 256)%N -> (s < 2 ^ 256)%N -> List.length (sign_bytes (r, s, v)) = 65%nat.
+Proof. intros Hr Hs. unfold sign_bytes. rewrite !app_length, !pad32_length by assumption. reflexivity. Qed.
+
+(* the round trip of a signature through its wire image, for all r, s < 2^256 -- in particular when the big-endian
+   form of r or s is shorter than 32 bytes (leading zero bytes): each word is LEFT-padded *)
+Lemma sign_roundtrip r s v : (r < 2 ^ 256)%N -> (s < 2 ^ 256)%N -> to_sign (sign_bytes (r, s, v)) = Some (r, s, v).
+Proof.
+  intros Hr Hs. unfold to_sign. rewrite sign_bytes_length by assumption. cbn [Nat.eqb]. unfold sign_bytes.
+  pose proof (pad32_length r Hr) as Lr. pose proof (pad32_length s Hs) as Ls.
+  rewrite (firstn_len_app _ _ 32 Lr), (skipn_len_app _ _ 32 Lr), (firstn_len_app _ _ 32 Ls).
+  rewrite !bev_pad32, !bev_beb.
+  rewrite app_assoc. rewrite app_nth2; rewrite app_length, Lr, Ls; [|lia]. reflexivity.
+Qed.
+
+(* a right-padded word (the seeded variant) is a different image as soon as r has a leading zero byte: r = 1 *)
+Lemma sign_left_pad_matters :
+  to_sign (sign_bytes (1, 2, 0)%N) = Some (1, 2, 0)%N /\
+  to_sign ((1 :: repeat 0 31) ++ (2 :: repeat 0 31) ++ [0])%N <> Some (1, 2, 0)%N.
+Proof. split; [vm_compute; reflexivity | vm_compute; discriminate]. Qed.
+
+Lemma to_sign_range b r s v : bytes_ok b -> to_sign b = Some (r, s, v) -> (r < 2 ^ 256)%N /\ (s < 2 ^ 256)%N.
+Proof.
+  intros B. unfold to_sign. destruct (Nat.eqb _ _); [|discriminate]. intros E. apply Some_inj in E.
+  assert (Er : r = bev (firstn 32 b)) by (apply (f_equal (fun t => fst (fst t))) in E; cbn [fst] in E; symmetry; exact E).
+  assert (Es : s = bev (firstn 32 (skipn 32 b))) by (apply (f_equal (fun t => snd (fst t))) in E; cbn [fst snd] in E; symmetry; exact E).
+  subst r s. change (2 ^ 256)%N with (256 ^ N.of_nat 32)%N.
+  split; [exact (bev_firstn_bound b 32 B) | exact (bev_firstn_bound (skipn 32 b) 32 (bytes_ok_skipn b 32 B))].
+Qed.
+
 (* ================= value round trips ================= *)
 #[local] Arguments big_bytes : simpl never.
 #[local] Arguments big_set : simpl never.
@@ -244,7 +295,8 @@ Local Notation tx_body := (tx_of_pb_body SubT sub_dec sub_nil ss).
 Local Notation hdr_body := (hdr_of_pb_body ReqT req_dec req_nil ss rs).
 
 (* ---- transactions ---- *)
-Definition sign_ok (s : option bytes) : Prop := match s with Some b => List.length b = 65%nat | None => True end.
+Definition sign_ok (s : option gsign) : Prop :=
+  match s with Some (r, s, _) => (r < 2 ^ 256)%N /\ (s < 2 ^ 256)%N | None => True end.
 
 Definition tx_wf (t : Tx) : Prop :=
   hash32 t.(x_Hash _) /\ hash32 t.(x_SubHash _) /\ sign_ok t.(x_Sign _) /\ sub_dec (sub_enc t.(x_Sub _)) = t.(x_Sub _).
@@ -263,19 +315,20 @@ Proof.
   destruct t as [src tgt ty tm dat ed edt sub shash hash sg nonce rid sock cid]; cbn in *. unfold tx_of_pb_body, tx_to_pb, tx_wire_view. cbn.
   rewrite !rd_nonempty by assumption. cbn [bind]. rewrite H0. cbn [bind].
   rewrite ob_nonempty, H4, !to_hash_id by assumption.
-  replace (match sg with Some b => if Nat.eqb (List.length b) 0 then None else to_sign b | None => None end) with sg.
-  2:{ destruct sg as [b|]; [|reflexivity]. cbn in H3. unfold to_sign. rewrite H3. reflexivity. }
+  replace (match option_map sign_bytes sg with Some b => if Nat.eqb (List.length b) 0 then None else to_sign b | None => None end) with sg.
+  2:{ destruct sg as [[[r s] v]|]; [|reflexivity]. cbn [option_map]. destruct H3 as [Hr Hs].
+      rewrite (sign_bytes_length r s v Hr Hs). cbn [Nat.eqb]. rewrite (sign_roundtrip r s v Hr Hs). reflexivity. }
   reflexivity.
 Qed.
 
 Lemma tx_of_pb_wf p t : (forall b, sub_dec (sub_enc (sub_dec b)) = sub_dec b) -> sub_dec (sub_enc sub_nil) = sub_nil ->
-  tx_body p = Ok t -> tx_wf t.
+  bytes_ok (ob p.(p_Sign)) -> tx_body p = Ok t -> tx_wf t.
 Proof.
-  intros J1 J2. unfold tx_of_pb_body.
+  intros J1 J2 BS. unfold tx_of_pb_body.
   repeat match goal with |- context [rd ?m ?x ?d] => destruct (rd m x d); cbn [bind]; [|discriminate] end.
   intros E. apply Ok_inj in E. subst t. unfold tx_wf. cbn. repeat split; try apply to_hash_length.
-  - destruct (p_Sign p) as [b|]; [|exact I]. destruct (Nat.eqb (List.length b) 0); [exact I|].
-    unfold to_sign. destruct (Nat.eqb_spec (List.length b) 65); [assumption | exact I].
+  - destruct (p_Sign p) as [b|]; [|exact I]. destruct (Nat.eqb (List.length b) 0); [exact I|]. cbn [ob] in BS.
+    destruct (to_sign b) as [[[r s] v]|] eqn:E; [|exact I]. exact (to_sign_range b r s v BS E).
   - destruct (p_SubTransactions p); [apply J1 | apply J2].
 Qed.
 
